@@ -365,6 +365,22 @@ impl<P: Protocol + Clone + Send + 'static> Server<P> {
         }
     }
 
+    /// Verification hook: the real per-connection task over an in-memory stream
+    #[cfg(feature = "verif-hooks")]
+    pub fn verif_accept(&self, stream: Box<dyn N>) -> impl std::future::Future<Output = ()>
+    where
+        P: Sync,
+    {
+        remote(
+            Arc::new(self.config.connections.clone()),
+            None,
+            self.router_tx.clone(),
+            stream,
+            self.protocol.clone(),
+            self.awaiting_will_handler.clone(),
+        )
+    }
+
     // Depending on TLS or not create a new Network
     async fn tls_accept(&self, stream: TcpStream) -> Result<(Box<dyn N>, Option<String>), Error> {
         #[cfg(any(feature = "use-rustls", feature = "use-native-tls"))]
